@@ -134,7 +134,7 @@ def main():
         # ------------------------------------------------------------------ (a) gluing / format_asynq_stack
         gcases = []
         gstates = gtrans = 0
-        runs = [{"MAXD": "7" if quick else "8", "PRIORD": "4" if quick else "5", "RETRD": "4" if quick else "6",
+        runs = [{"MAXD": "6" if quick else "8", "PRIORD": "4" if quick else "5", "RETRD": "4" if quick else "6",
                  "NOSRCD": "4" if quick else "6", "HANDD": "5" if quick else "7"}]
         if not quick:
             runs += [{"DEEP": "50"}, {"DEEP": "200"}]
@@ -236,10 +236,10 @@ def main():
             "distinct_nontrivial": stats["filter"]["texts_with_complete_runs"] + nglue_nontriv + len(visited) + len(fe),
             "rule": "filter: every text of <= %s lines over 12 line classes, <= %s lines over {c,g,v,f}, <= %s blocks out of 30 "
                     "(full runs, proper prefixes/suffixes, foreign line); glue: every chain of depth <= %s x raising level x handler "
-                    "modes x sync x style x outer%s, chains of depth <= %s also after each of 6 kinds of earlier computation on the thread (error handled by a task / by the caller); life: every operation history of 14 object kinds to depth %s + 88 format_error "
+                    "modes x sync x style x outer%s, chains of depth <= %s also after each of 6 kinds of earlier computation on the thread (error handled by a task / by the caller), chains of depth <= %s asked for their outcome several times, chains of depth <= %s with generated (source-less) functions at one level / at every level, chains of depth <= %s with a hand-over (creator chain differs from the await chain) at every level; life: every operation history of 14 object kinds to depth %s + 88 format_error "
                     "cells; non-trivial = text with a complete run / chain with a handler / distinct (kind,state) / cell"
                     % (env_get(stats, "max_lines"), env_get(stats, "max_short_lines"), env_get(stats, "max_blocks"),
-                       "7" if quick else "8", "" if quick else " + depths 25..200", "4" if quick else "5", "5" if quick else "7"),
+                       "6" if quick else "8", "" if quick else " + depths 25..200", "4" if quick else "5", "4" if quick else "6", "4" if quick else "6", "5" if quick else "7", "5" if quick else "7"),
             "exhaustive": True,
             "counts": {"filter_texts": nfilter, "glue_chains": nglue, "life_histories": len(lcases)},
         }
